@@ -37,6 +37,16 @@ impl Lockfile {
     fn _lock<P: AsRef<Path>>(path: P, what: libc::c_int) -> Result<Option<Self>, Error> {
         // Hold ACTIVELY_LOCKING during the entire lock protocol.
         let mut lock_table = ACTIVELY_LOCKING.lock().unwrap();
+        // If this process already holds the lock, say so without opening the file:  POSIX record
+        // locks belong to the (process, inode) pair, and closing *any* descriptor of the file
+        // would silently release the lock that the other Lockfile holds.
+        if let Ok(metadata) = std::fs::metadata(path.as_ref()) {
+            for (dev, ino) in lock_table.iter() {
+                if *dev == metadata.dev() && *ino == metadata.ino() {
+                    return Ok(None);
+                }
+            }
+        }
         // Open the lock.  It doesn't matter if the lock file already exists.
         let file = OpenOptions::new()
             .read(true)
